@@ -672,7 +672,9 @@ func loRequire(L *LState) int {
 			modasfunc = retv
 			goto loopbreak
 		case LString:
-			messages = append(messages, string(retv))
+			if retv != "" { // a loader that tried no place (a path of empty templates) adds no line
+				messages = append(messages, string(retv))
+			}
 		}
 	}
 loopbreak:
